@@ -466,6 +466,7 @@ def main():
     chk.rule = ('document i = f(VERIF_SEED, i): slot documents (3-10 of %d syntactic positions) filled with XML-hostile atoms (quotes, & < >, ]]>, comment and CDATA markers, '
                 'named/numeric/bogus entities, escaped characters, raw tags, CriticMarkup and math delimiters, multi-byte) or generated documents; each rendered to opml, fodt, '
                 'itmz, odt, epub; every XML/XHTML member parsed by expat; distinct = distinct (source, ext, lang)' % len(slots.ALL_KINDS))
+    chk.rule = chk.rule + ' ; plus dedicated workloads: images (empty / query / special destinations, hostile dimension attributes, 7 positions), specially treated metadata keys with XML-special values, autolinked addresses and citation locators, raw-source filters'
     chk.assumptions = ['sources are valid UTF-8 without C0/C1 controls other than tab and line breaks, as the property requires', 'expat does not load DTDs: only the five XML entities are defined']
     chunk = max(20, n // 64)
     chk.run_jobs(work, [(chk.seed, lo, min(n, lo + chunk)) for lo in range(0, n, chunk)])
